@@ -338,3 +338,40 @@ def check(ctx):
                            instance="the caught cancellation replaces the carried exception only if that is absent, or a cancellation while the caught one is native",
                            what="replacement of exc_val", native=True)      # (the checkpoint handler is reached by native cancellation only)
     ctx.need("R05-h", aexit_tg, "sites where a cancellation caught during the join becomes the exception to propagate", n_rep, 1)
+    # ... and the other direction: whenever there is no carried exception, or it is a cancellation and the caught one is native, the
+    # replacement *does* happen (else a native cancel request that arrives after the group's own cancellation is silently dropped).  Per
+    # handler, every valuation of the four atoms that satisfies the condition is consistent with a path that reaches a replacement.
+    import itertools
+    for h_ in [x for x in own_walk(aexit_tg.node) if isinstance(x, ast.ExceptHandler) and x.name and x.type is not None and "CancelledError" in ast.unparse(x.type)]:
+        tgts = [ev] + sorted({x.value.id for x in ast.walk(h_) if isinstance(x, ast.Assign) and isinstance(x.value, ast.Name)
+                              and x.value.id != h_.name and ast.unparse(x.targets[0]) == ev})
+        sites_ = [s_ for t_ in tgts for s_, _ in ctx.sites(aexit_tg, f"{t_} = {h_.name}") if any(y is s_ for y in ast.walk(h_))]
+        if not sites_:
+            continue
+        atoms_ = {"none": F(f"{ev} is None"), "isce": F(f"isinstance({ev}, CancelledError)"), "anyio_caught": F(f"is_anyio_cancellation({h_.name})"),
+                  "anyio_carried": F(f"is_anyio_cancellation({ev})")}
+        conj = []
+        for s_ in sites_:
+            for fa in ctx.facts_at(aexit_tg, s_, native=True) or []:
+                d_ = {}
+                for nm_, (k_, pol_) in atoms_.items():
+                    for fk, fp in fa:
+                        if fk == k_:
+                            d_[nm_] = (fp == pol_)
+                conj.append(d_)
+        missing = []
+        for combo in itertools.product((True, False), repeat=4):
+            v = dict(zip(atoms_, combo))
+            if v["none"] and (v["isce"] or v["anyio_carried"]):
+                continue        # (no carried exception: nothing to classify)
+            if v["anyio_carried"] and not v["isce"]:
+                continue        # (only a CancelledError can be AnyIO's cancellation)
+            want = v["none"] or (v["isce"] and not v["anyio_caught"])
+            if want and not any(all(v[a_] == b_ for a_, b_ in c_.items()) for c_ in conj):
+                missing.append(v)
+        okm = not missing
+        ctx.ob("R05-h", aexit_tg, "the caught cancellation does replace the carried one whenever that is absent, or a cancellation while the caught one is native",
+               okm, node=sites_[0], by=("truth table over 4 atoms",),
+               detail="" if okm else f"no replacement under {missing[0]}: a native cancellation that interrupts the join after the group's own (AnyIO) "
+                                     "cancellation was caught is dropped, and the scope absorbs the stored one")
+
